@@ -12,6 +12,9 @@ Shape B.  Families of shards:
 * ``w``      -- all W arrays of <= 3 items from an 8-item pool x DW x {Identity-H, 90ms-RKSJ-H}; W2/DW2 x vertical CMaps.
 * ``ttf``    -- embedded TrueType cmap tables (formats 0, 4, 12; platform filtering) under Adobe-Identity.
 * ``coll``   -- predefined CMap + character collection wiring through a document; odd-length identity strings.
+* ``one``    -- several composite fonts in one document, one fresh process per case: an -H and a -V font of one
+               collection in both load orders (same page / two pages); two Type0 fonts sharing one descendant
+               CIDFont, one with ToUnicode and one without, in every load order.
 """
 from __future__ import annotations
 
@@ -387,9 +390,10 @@ X0, Y0 = 16, 700
 
 
 def compare_doc(pdf: bytes, expected: List[Dict[str, Any]], vertical: bool, sigbase: str, classify=None):
-    """expected: per glyph {text, adv (Fraction), vx (Fraction or None), tag}.  -> (violations, outcome)"""
+    """expected: per glyph {text, adv (Fraction), vx (Fraction or None), tag[, vert (writing mode of this glyph's font),
+    page (0-based page the glyph is shown on)]}.  -> (violations, outcome)"""
     try:
-        g = R.glyphs(pdf)[0]
+        pages = R.glyphs(pdf)
     except Exception as e:  # noqa
         es = exc_sig(e)
         sig = {
@@ -397,26 +401,32 @@ def compare_doc(pdf: bytes, expected: List[Dict[str, Any]], vertical: bool, sigb
             "AssertionError@create_unicode_map": "C07/truetype-cmap-unhandled-format-raises",
         }.get(es, "C07/exception:" + es)
         return [(sig, -1, f"{len(expected)} glyphs", f"{type(e).__name__}: {e}", "document raised")], ("exc", es)
-    if len(g) != len(expected):
+    npages = 1 + max([e.get("page", 0) for e in expected] or [0])
+    per_page = [[e for e in expected if e.get("page", 0) == k] for k in range(npages)]
+    if len(pages) != npages or any(len(pages[k]) != len(per_page[k]) for k in range(npages)):
         sig = (classify("count", None, None) if classify else None) or sigbase + ":glyph-count"
-        return [(sig, -1, [e["text"] for e in expected], [x[0] for x in g], "number of glyphs")], ("count", len(g))
+        return [(sig, -1, [[e["text"] for e in pp] for pp in per_page], [[x[0] for x in pg] for pg in pages], "number of glyphs per page")], ("count", tuple(len(pg) for pg in pages))
     viol = []
-    px, py = Fraction(X0), Fraction(Y0)
-    for i, (e, x) in enumerate(zip(expected, g)):
-        text, adv, m, bbox = x[0], x[1], x[2], x[3]
-        if text != e["text"]:
-            viol.append(((classify("text", e, text) if classify else None) or f"{sigbase}:text:{e.get('tag','')}", i, e["text"], text, f"text of glyph {i} ({e.get('note','')})"))
-        if not R.close(adv, e["adv"]):
-            viol.append(((classify("adv", e, adv) if classify else None) or f"{sigbase}:advance:{e.get('wtag','')}", i, float(e["adv"]), adv, f"advance of glyph {i} ({e.get('note','')})"))
-        if not (R.close(m[4], px) and R.close(m[5], py)):
-            viol.append(((classify("pen", e, (m[4], m[5])) if classify else None) or f"{sigbase}:pen-position", i, (float(px), float(py)), (m[4], m[5]), f"pen position of glyph {i}"))
-        if vertical and e.get("vx") is not None and not R.close(bbox[0], px - e["vx"] * FS / 1000):
-            viol.append(((classify("vx", e, bbox[0]) if classify else None) or f"{sigbase}:vertical-origin-x", i, float(px - e["vx"] * FS / 1000), bbox[0], f"x0 of glyph {i} (position vector vx={e['vx']})"))
-        if vertical:
-            py += e["adv"]
-        else:
-            px += e["adv"]
-    return viol, tuple((x[0], round(x[1], 6)) for x in g)
+    i = -1
+    for k in range(npages):
+        px, py = Fraction(X0), Fraction(Y0)
+        for e, x in zip(per_page[k], pages[k]):
+            i += 1
+            vert = e.get("vert", vertical)
+            text, adv, m, bbox = x[0], x[1], x[2], x[3]
+            if text != e["text"]:
+                viol.append(((classify("text", e, text) if classify else None) or f"{sigbase}:text:{e.get('tag','')}", i, e["text"], text, f"text of glyph {i} ({e.get('note','')})"))
+            if not R.close(adv, e["adv"]):
+                viol.append(((classify("adv", e, adv) if classify else None) or f"{sigbase}:advance:{e.get('wtag','')}", i, float(e["adv"]), adv, f"advance of glyph {i} ({e.get('note','')})"))
+            if not (R.close(m[4], px) and R.close(m[5], py)):
+                viol.append(((classify("pen", e, (m[4], m[5])) if classify else None) or f"{sigbase}:pen-position", i, (float(px), float(py)), (m[4], m[5]), f"pen position of glyph {i}"))
+            if vert and e.get("vx") is not None and not R.close(bbox[0], px - e["vx"] * FS / 1000):
+                viol.append(((classify("vx", e, bbox[0]) if classify else None) or f"{sigbase}:vertical-origin-x", i, float(px - e["vx"] * FS / 1000), bbox[0], f"x0 of glyph {i} (position vector vx={e['vx']})"))
+            if vert:
+                py += e["adv"]
+            else:
+                px += e["adv"]
+    return viol, tuple((x[0], round(x[1], 6)) for pg in pages for x in pg)
 
 
 def record_doc(st, fam: str, key, pdf: bytes, expected, vertical: bool, sigbase: str, desc: Dict[str, Any], classify=None) -> None:
@@ -429,7 +439,7 @@ def record_doc(st, fam: str, key, pdf: bytes, expected, vertical: bool, sigbase:
             st.viol_counts[sig] += 1  # counted, not stored
             continue
         st.violation(sig, {"family": "doc", "sub": fam, "desc": desc, "pdf": pdf, "vertical": vertical, "sigbase": sigbase, "index": i,
-                           "expected": [[e["text"], e["adv"], e.get("vx"), e.get("tag", ""), e.get("wtag", ""), e.get("note", "")] for e in expected]}, exp, ob, what)
+                           "expected": [[e["text"], e["adv"], e.get("vx"), e.get("tag", ""), e.get("wtag", ""), e.get("note", ""), e.get("vert"), e.get("page", 0)] for e in expected]}, exp, ob, what)
 
 
 # ------------------------------------------------------------------ tou family
@@ -950,6 +960,165 @@ def build_onebyte(enc, with_tou, with_w):
     return pdf, exp, vertical
 
 
+# ------------------------------------------------------------------ several composite fonts in one document
+def pages_doc(doc: Doc, fonts_per_page: List[Dict[str, Ref]], shows_per_page: List[List[Tuple[str, bytes]]]) -> bytes:
+    """A document with one page per entry; each page lists its fonts (in load order) and shows (font, string) pairs."""
+    cat = doc.reserve()
+    pages = doc.reserve()
+    kids = []
+    for fonts, shows in zip(fonts_per_page, shows_per_page):
+        content = b"BT 16 700 Td " + b" ".join(b"/%s %d Tf %s Tj" % (k.encode(), FS, ser(HexStr(sv))) for k, sv in shows) + b" ET"
+        c = doc.add(Stream({}, content))
+        kids.append(doc.add({"Type": N("Page"), "Parent": pages, "MediaBox": [0, 0, 612, 792], "Resources": {"Font": dict(fonts)}, "Contents": c}))
+    doc.set(cat, {"Type": N("Catalog"), "Pages": pages})
+    doc.set(pages, {"Type": N("Pages"), "Kids": kids, "Count": len(kids)})
+    return doc.write(cat)
+
+
+def descendant_obj(doc: Doc, ros, sub: str = "CIDFontType0", ff2: Optional[bytes] = None) -> Ref:
+    return doc.add({
+        "Type": N("Font"), "Subtype": N(sub), "BaseFont": N("ABCDEF+Foo"),
+        "CIDSystemInfo": {"Registry": ros[0].encode(), "Ordering": ros[1].encode(), "Supplement": ros[2]},
+        "FontDescriptor": cid_descriptor(doc, ff2),
+    })
+
+
+def type0_obj(doc: Doc, enc: str, desc: Ref, tou: Optional[bytes] = None) -> Ref:
+    f: Dict[str, Any] = {"Type": N("Font"), "Subtype": N("Type0"), "BaseFont": N("ABCDEF+Foo"), "Encoding": N(enc), "DescendantFonts": [desc]}
+    if tou is not None:
+        f["ToUnicode"] = doc.add(Stream({}, tou))
+    return doc.add(f)
+
+
+# (a) an -H and a -V font of one character collection, no ToUnicode, in one document, both load orders.  The
+#     collection's Unicode maps are cached process-wide per orientation; brackets and punctuation have distinct
+#     vertical CIDs whose text must still be the character itself.
+HV_PAIRS = [
+    ("90ms-RKSJ", "cp932", "Adobe-Japan1"), ("UniJIS-UTF16", "utf-16-be", "Adobe-Japan1"), ("EUC", "euc_jp", "Adobe-Japan1"),
+    ("GBK-EUC", "gbk", "Adobe-GB1"), ("UniGB-UTF16", "utf-16-be", "Adobe-GB1"),
+    ("B5pc", "big5", "Adobe-CNS1"), ("UniCNS-UTF16", "utf-16-be", "Adobe-CNS1"),
+    ("KSCms-UHC", "cp949", "Adobe-Korea1"), ("UniKS-UTF16", "utf-16-be", "Adobe-Korea1"),
+]
+HV_SAMPLE = "（）「」、。あ一A"
+HV_LAYOUTS = ["h-first", "v-first", "h-first-two-pages", "v-first-two-pages", "h-listed-first-v-shown-first"]
+
+
+def hv_cases():
+    for i in range(len(HV_PAIRS)):
+        for lay in HV_LAYOUTS:
+            yield ("hv", i, lay)
+
+
+def build_hv(i: int, lay: str):
+    stem, codec, coll = HV_PAIRS[i]
+    reg, order = coll.split("-")
+    doc = Doc()
+    fonts = {}
+    strings = {}
+    exps = {}
+    for key, name, vert in (("FH", stem + "-H", False), ("FV", stem + "-V", True)):
+        flat, _ = flat_codes(name)
+        codes = []
+        ex = []
+        for ch in HV_SAMPLE:
+            try:
+                c = ch.encode(codec)
+            except UnicodeEncodeError:
+                continue
+            if c in flat:
+                codes.append(c)
+                ex.append({"text": ch, "adv": Fraction(-FS if vert else FS), "vert": vert, "tag": "collection-" + ("V" if vert else "H"), "note": f"{name} code {c.hex()} cid {flat[c]}"})
+        fonts[key] = type0_obj(doc, name, descendant_obj(doc, (reg, order, 2)))
+        strings[key] = b"".join(codes)
+        exps[key] = ex
+    first, second = ("FH", "FV") if lay.startswith("h-first") else ("FV", "FH")
+    if lay.endswith("two-pages"):
+        fpp = [{first: fonts[first]}, {second: fonts[second]}]
+        spp = [[(first, strings[first])], [(second, strings[second])]]
+        exp = [dict(e, page=0) for e in exps[first]] + [dict(e, page=1) for e in exps[second]]
+    elif lay == "h-listed-first-v-shown-first":
+        fpp = [{"FH": fonts["FH"], "FV": fonts["FV"]}]
+        spp = [[("FV", strings["FV"]), ("FH", strings["FH"])]]
+        exp = exps["FV"] + exps["FH"]
+    else:
+        fpp = [{first: fonts[first], second: fonts[second]}]
+        spp = [[(first, strings[first]), (second, strings[second])]]
+        exp = exps[first] + exps[second]
+    return pages_doc(doc, fpp, spp), exp, False
+
+
+def classify_hv(kind, e, got):
+    if kind == "text":
+        return "C07/collection-unicode-map-orientation-mixed-up"
+    return None
+
+
+# (b) two Type0 fonts that reference the *same* descendant CIDFont object: one carries a ToUnicode stream, the
+#     other does not and must fall back to the character collection / the embedded TrueType cmap.
+SHARED_KINDS = ["japan1", "ttf"]
+SHARED_LAYOUTS = ["tou-first", "plain-tou-plain", "tou-first-two-pages", "plain-first-two-pages", "tou-listed-first-plain-shown-first"]
+SHARED_PLAIN_ENC = ["Identity-H", "Identity-V"]
+
+
+def shared_cases():
+    for kind in SHARED_KINDS:
+        for lay in SHARED_LAYOUTS:
+            for enc in SHARED_PLAIN_ENC:
+                yield ("shared", kind, lay, enc)
+
+
+def build_shared(kind: str, lay: str, plain_enc: str):
+    doc = Doc()
+    if kind == "japan1":
+        um = load_pickle("to-unicode-Adobe-Japan1")
+        inv = {}
+        for cid, ch in um["CID2UNICHR_H"].items():
+            if ch in "あア亜A" and um["CID2UNICHR_V"].get(cid) == ch:
+                inv.setdefault(ch, cid)
+        cids = [inv[ch] for ch in "あア亜A"]
+        desc = descendant_obj(doc, ("Adobe", "Japan1", 2))
+        plain_text = {c: um["CID2UNICHR_V" if is_vertical_name(plain_enc) else "CID2UNICHR_H"][c] for c in cids}
+        tag = "collection"
+    else:
+        ff2 = ttf_file([(3, 1, ttf_fmt4([(0x41, 0x44, "delta", 5)]))])
+        cids = [5, 6, 7, 8]
+        desc = descendant_obj(doc, ("Adobe", "Identity", 0), sub="CIDFontType2", ff2=ff2)
+        plain_text = {5: "A", 6: "B", 7: "C", 8: "D"}
+        tag = "truetype-cmap"
+    codes = [c.to_bytes(2, "big") for c in cids]
+    entries = [("char", c, t) for c, t in zip(codes, ["W", "X", "YY", "Z"])]
+    tou = tou_stream(entries, "canonical")
+    s = b"".join(codes)
+    pv = is_vertical_name(plain_enc)
+    e_tou = [{"text": t, "adv": Fraction(FS), "vert": False, "tag": "tounicode", "note": f"font with ToUnicode, cid {c}"} for c, t in zip(cids, ["W", "X", "YY", "Z"])]
+    e_plain = [{"text": plain_text[c], "adv": Fraction(-FS if pv else FS), "vert": pv, "tag": tag, "note": f"font without ToUnicode sharing the descendant, cid {c}"} for c in cids]
+    ft = type0_obj(doc, "Identity-H", desc, tou)
+    fp = type0_obj(doc, plain_enc, desc)
+    if lay == "tou-first":
+        fpp, spp, exp = [{"FT": ft, "FP": fp}], [[("FT", s), ("FP", s)]], e_tou + e_plain
+    elif lay == "plain-tou-plain":
+        fp2 = type0_obj(doc, plain_enc, desc)  # a second, separate Type0 object without ToUnicode
+        fpp, spp, exp = [{"FP": fp, "FT": ft, "FQ": fp2}], [[("FP", s), ("FT", s), ("FQ", s)]], e_plain + e_tou + e_plain
+    elif lay == "tou-first-two-pages":
+        fpp, spp = [{"FT": ft}, {"FP": fp}], [[("FT", s)], [("FP", s)]]
+        exp = [dict(e, page=0) for e in e_tou] + [dict(e, page=1) for e in e_plain]
+    elif lay == "plain-first-two-pages":
+        fp2 = type0_obj(doc, plain_enc, desc)
+        fpp, spp = [{"FP": fp}, {"FT": ft}, {"FQ": fp2}], [[("FP", s)], [("FT", s)], [("FQ", s)]]
+        exp = [dict(e, page=0) for e in e_plain] + [dict(e, page=1) for e in e_tou] + [dict(e, page=2) for e in e_plain]
+    else:
+        fpp, spp, exp = [{"FT": ft, "FP": fp}], [[("FP", s), ("FT", s)]], e_plain + e_tou
+    return pages_doc(doc, fpp, spp), exp, False
+
+
+def classify_shared(kind, e, got):
+    if kind == "text" and e is not None and e.get("tag") != "tounicode" and got in ("W", "X", "YY", "Z"):
+        return "C07/shared-descendant-inherits-sibling-ToUnicode"
+    if kind in ("adv", "pen") or (kind == "text" and e is not None and e.get("tag") == "tounicode"):
+        return "C07/shared-descendant-inherits-sibling-Encoding-or-ToUnicode"
+    return None
+
+
 def odd_cases():
     for enc in ("Identity-H", "Identity-V", "DLIdent-H"):
         for s in (b"\x00\x41\x00", b"\x00", b"\x00\x41\x00\x42\x43"):
@@ -991,6 +1160,12 @@ def doc_case(c):
     if kind == "onebyte":
         pdf, exp, v = build_onebyte(c[1], c[2], c[3])
         return pdf, exp, v, "C07/onebyte-identity", {"encoding": c[1], "tounicode": c[2], "widths": c[3]}, None
+    if kind == "hv":
+        pdf, exp, v = build_hv(c[1], c[2])
+        return pdf, exp, v, "C07/hv-pair", {"pair": list(HV_PAIRS[c[1]]), "layout": c[2]}, classify_hv
+    if kind == "shared":
+        pdf, exp, v = build_shared(c[1], c[2], c[3])
+        return pdf, exp, v, "C07/shared-descendant", {"descendant": c[1], "layout": c[2], "plain_encoding": c[3]}, classify_shared
     if kind == "odd":
         pdf, exp, v = build_odd(c[1], c[2])
         return pdf, exp, v, "C07/odd-length", {"encoding": c[1], "string": c[2]}, None
@@ -1022,9 +1197,13 @@ def shards(tier):
             if os.path.exists(os.path.join(cmap_dir(), v + ".pickle.gz")):
                 pairs.append((v, codec, coll))
     out += [("codec", cm, codec, coll) for cm, codec, coll in pairs]
-    n = len(all_doc_cases(tier))
+    _DOC_CACHE[tier] = all_doc_cases(tier)  # inherited by the forked one-shot workers
+    n = len(_DOC_CACHE[tier])
     size = 120 if tier == "quick" else 250
     out += [("doc", i, min(i + size, n)) for i in range(0, n, size)]
+    # several-fonts-in-one-document cases exercise process-wide / document-wide caches: each is its own shard (the
+    # runner gives every shard a fresh process), so the case's call history is exactly the case
+    out += [("one",) + c for c in hv_cases()] + [("one",) + c for c in shared_cases()]
     return out
 
 
@@ -1039,6 +1218,14 @@ def run_shard(shard, tier, st):
     elif fam == "codec":
         run_codec(shard[1], shard[2], shard[3], st)
         st.sample({"family": "codec", "cmap": shard[1], "codec": shard[2], "collection": shard[3]})
+    elif fam == "one":
+        c = tuple(shard[1:])
+        pdf, exp, vertical, sigbase, desc, classify = doc_case(c)
+        st.states += 1 + len(exp)
+        st.transitions += len(exp)
+        record_doc(st, c[0], c[1:], pdf, exp, vertical, sigbase, {"kind": c[0], **desc}, classify)
+        if c[2] in ("h-first", "tou-first") and c[1] in (0, "japan1"):
+            st.sample({"family": c[0], "desc": desc, "pdf_bytes": len(pdf), "expected": [(e["text"], float(e["adv"])) for e in exp[:8]]})
     elif fam == "doc":
         if tier not in _DOC_CACHE:
             _DOC_CACHE[tier] = all_doc_cases(tier)
@@ -1114,7 +1301,15 @@ def replay(case):
             elif fam == "codec" and v["case"].get("cp") == case["cp"]:
                 out.append({"signature": v["signature"], "expected": repr(v["expected"]), "observed": repr(v["observed"])})
     elif fam == "doc":
-        exp = [{"text": a, "adv": b, "vx": c, "tag": d, "wtag": e, "note": f} for a, b, c, d, e, f in case["expected"]]
+        exp = []
+        for row in case["expected"]:
+            a, b, c, d, e, f = row[:6]
+            ent = {"text": a, "adv": b, "vx": c, "tag": d, "wtag": e, "note": f}
+            if len(row) > 6:
+                if row[6] is not None:
+                    ent["vert"] = row[6]
+                ent["page"] = row[7]
+            exp.append(ent)
         d = case["desc"]
         classify = None
         if d["kind"] == "toupre":
@@ -1123,6 +1318,10 @@ def replay(case):
             classify = make_classify_ttf(tuple(d["segments"]), d["layout"])
         elif d["kind"] == "v":
             classify = make_classify_w2(tuple(d["items"]))
+        elif d["kind"] == "hv":
+            classify = classify_hv
+        elif d["kind"] == "shared":
+            classify = classify_shared
         viol, _ = compare_doc(case["pdf"], exp, case["vertical"], case["sigbase"], classify)
         for sig, i, e, g, what in viol:
             if i == case["index"]:
